@@ -228,11 +228,35 @@ PROPS = {
         "functions": [
             ("sass::functions::list::index_of", "sass/functions/list.rs", r"^fn index_of"),
             ("sass::functions::list set_nth closure", "sass/functions/list.rs", r"def!\(f, set_nth\("),
+            ("sass::functions::list index closure", "sass/functions/list.rs", r"def!\(f, index\("),
+            ("sass::functions::list append/join/separator/is-bracketed closures", "sass/functions/list.rs", r"def!\(f, append\("),
         ],
-        "bounds": {"quick": "ALL i64 n, every list length <= 2^32 (len symbolic)"},
-        "outside": "list.index and zip (loops over Vec<css::Value> with opaque == calls), length, maps and arglists as lists, the nth closure's dispatch on list/map/scalar; the element vectors themselves are opaque (append/join are decided on separator/bracket selection and on which vector is pushed/appended to which)",
+        "bounds": {"quick": "ALL i64 n, every list length <= 2^32 (len symbolic); list.index: lists and maps of 0..3 entries, any $value, `==` uninterpreted"},
+        "outside": "zip, length, maps and arglists as lists, the nth closure's dispatch on list/map/scalar; the element vectors themselves are opaque (append/join are decided on separator/bracket selection and on which vector is pushed/appended to which)",
         "stubs": ["check::unitless_int returns Ok(arbitrary i64) or Err", "get_list / ResolvedArgs::get* are opaque events", "Vec::index_mut is an event"],
         "assumptions": ["rustc nightly MIR text = the code that is compiled", "mirsym's MIR subset semantics (/verif/mirsym/sym.py)", "z3 5.1 and cvc5 1.0.3 (every query on both)"],
+    },
+    "C29": {
+        "engines": ["E1 Kani/CBMC", "E2 mirsym+z3/cvc5"],
+        "e2": True,
+        "functions": [
+            ("rsass::value::Number::ceil/floor/trunc/round/abs/signum", "value/number.rs", r"pub fn ceil\(&self\)"),
+            ("sass::functions::math ceil/floor closures", "sass/functions/math.rs", r"def!\(f, ceil\(number\)"),
+            ("sass::functions::math::round::sass_round", "sass/functions/math/round.rs", r"pub fn sass_round"),
+            ("sass::functions::math::distance::sass_abs", "sass/functions/math/distance.rs", r"^fn sass_abs"),
+            ("rsass::value::Numeric::percentage", "value/numeric.rs", r"fn percentage\("),
+            ("sass::functions::math clamp closure", "sass/functions/math.rs", r"def!\(f, clamp\("),
+            ("sass::functions::math::find_extreme", "sass/functions/math.rs", r"^fn find_extreme"),
+        ],
+        "bounds": {"quick": "E1: ALL finite f64 for ceil/floor/trunc/round against their order-theoretic definitions, all non-NaN f64 for abs/signum, all integers "
+                            "|i| < 2^53 as fixed points; E2: ceil/floor/round/abs/percentage closures for ANY f64 magnitude (bit-exact, NaN and signed zeros "
+                            "included) and any unit; clamp for any three numbers (comparisons uninterpreted); max/min for argument lists of 0..4 values"},
+        "outside": "pow, sqrt, log, exp and the trigonometric functions (no solver theory for transcendental functions), math.div, hypot, CSS round() with a step "
+                   "(real_round), the unit conversion inside Numeric::partial_cmp (C11/C12), argument parsing, number formatting",
+        "stubs": ["E2: f64::ceil/floor/trunc/round = SMT fp.roundToIntegral RTP/RTN/RTZ/RNA (the E1 harnesses check the same Number methods against "
+                  "CBMC's independent model)", "ResolvedArgs::get* return Ok(arbitrary value) or Err", "Numeric `<=`/`>=`, cmp2 and may_cmp_css are uninterpreted",
+                  "Numeric::new / Into<Value> are transparent constructors"] + KANI_STUBS[:1],
+        "assumptions": TRUST + ["rustc nightly MIR text = the code that is compiled", "mirsym's MIR subset semantics (/verif/mirsym/sym.py)", "z3 5.1 and cvc5 1.0.3 (every query on both)"],
     },
     "C36": {
         "engines": ["E2 mirsym+z3/cvc5"],
